@@ -311,6 +311,6 @@ impl Family for RrSlow {
         out.into_iter().map(|s| serde_json::to_value(s).unwrap()).collect()
     }
     fn watchdog_ms(&self) -> u64 {
-        120_000
+        40_000
     }
 }
